@@ -510,3 +510,26 @@ func TestC08_StableOnOddReaderOutput(t *testing.T) {
 		}
 	}
 }
+
+// found while proving that plain listed names stay in the control file's directory
+// (GoDebian/Lemmas/Paths.lean): filepath.Base("/") is "/", so "/" counted as a plain name
+func TestC20_ListedNameOfSlashes(t *testing.T) {
+	for _, name := range []string{"/", "//"} {
+		root := t.TempDir()
+		src, dst := filepath.Join(root, "src"), filepath.Join(root, "dst")
+		os.Mkdir(src, 0o755)
+		os.Mkdir(dst, 0o755)
+		os.WriteFile(filepath.Join(src, "bystander"), []byte("x"), 0o644)
+		os.WriteFile(filepath.Join(src, "s.dsc"), []byte("Format: 1.0\nSource: s\nVersion: 1\nFiles:\n d41d8cd98f00b204e9800998ecf8427e 1 "+name+"\n"), 0o644)
+		d, err := control.ParseDscFile(filepath.Join(src, "s.dsc"))
+		if err != nil {
+			t.Fatal(err)
+		}
+		if err := d.Move(dst); err == nil {
+			t.Errorf("listed name %q: Move succeeded", name)
+		}
+		if _, err := os.Stat(filepath.Join(src, "s.dsc")); err != nil {
+			t.Errorf("listed name %q: the move failed but the control file left its source (the whole directory was renamed into the destination)", name)
+		}
+	}
+}
